@@ -51,6 +51,8 @@ PROPS['C18'] = dict(
 PROPS['C12'] = dict(
     title='Edit distance equals the reference metric and operations() is a minimal script',
     groups=[dict(template='c12_edit.rs', rlimit=400)],
+    kani=[dict(crate='float_lemmas', harnesses=['norm_quotient', 'unit_quotient'],
+               domain='0 <= n <= m, 1 <= m < 2^32 (complete over this domain: loop-free, fully symbolic)')],
     input_search=True,
     claim='',
     not_covered=[],
